@@ -31,6 +31,7 @@ type FieldT struct {
 	ID    int16
 	Name  string
 	Alias string // api.key value, "" if none
+	GoTag int    // when > 0 the alias is spelled through go.tag='json:"..."' (variant 1..3) instead of api.key
 	T     *Type
 	Req   int
 	// Default, when non-nil, is the declared IDL default (scalar / string only).
@@ -174,7 +175,16 @@ func (s *Schema) IDL() string {
 			}
 			var an []string
 			if f.Alias != "" {
-				an = append(an, fmt.Sprintf("api.key=%q", f.Alias))
+				switch f.GoTag {
+				case 1:
+					an = append(an, fmt.Sprintf(`go.tag='json:"%s"'`, f.Alias))
+				case 2:
+					an = append(an, fmt.Sprintf(`go.tag='json:"%s,omitempty"'`, f.Alias))
+				case 3:
+					an = append(an, fmt.Sprintf(`go.tag='protobuf:"bytes,1,opt,name=x" json:"%s,string"'`, f.Alias))
+				default:
+					an = append(an, fmt.Sprintf("api.key=%q", f.Alias))
+				}
 			}
 			an = append(an, f.Annos...)
 			if len(an) > 0 {
@@ -324,6 +334,9 @@ func (g *sgen) newStruct(depth int) *StructT {
 			// aliases exercise bytes below '.' (which wrap in the name trie), spaces and upper case
 			pats := []string{"k%d_%d", "k%d_%d", "k-%d-%d", "k %d.%d", "+k%d%d", "k$%d,%d", "K%d_%d", "-%d%d", "k%d-%d"}
 			f.Alias = fmt.Sprintf(pats[g.r.Intn(len(pats))], sn, i)
+			if !strings.ContainsAny(f.Alias, ",\"\\'") && g.r.Chance(35) {
+				f.GoTag = 1 + g.r.Intn(3)
+			}
 		}
 		if g.cfg.Defaults && g.r.Chance(35) && f.T.T != tref.STRUCT && f.T.T != tref.LIST && f.T.T != tref.SET && f.T.T != tref.MAP && !f.T.Bin {
 			f.Default = defaultFor(g.r, f.T)
